@@ -536,12 +536,6 @@ func createSwitchStatementChunks(stmt *ast.SwitchStatement, statementIndex int, 
 					// Apply this chunk body to all of the previous shared cases.
 					for i < j {
 						if stmt.Cases[i].IsDefault {
-							defaultChunk := &chunk{
-								id:         *chunkCounter,
-								returnID:   returnID,
-								statements: stmt.Cases[j].Body.Statements,
-							}
-							remainingChunks = append(remainingChunks, defaultChunk)
 							branchBehavior.defaultCase = &switchCaseBranch{
 								comparisonValue: stmt.DefaultCase.Value,
 								destChunkID:     destChunkID,
